@@ -7,7 +7,7 @@ ROOT = os.path.dirname(os.path.dirname(os.path.abspath(__file__)))
 CHECKS = {
  "C01": ("proptest scenes (clip-space and Camera doors, all target kinds) vs an f64 per-pixel reference image: exact clipped polygons with inner/outer plane slack, perspective-correct barycentrics, nearest candidate",
          "Generated-input search: 32k (1.3M) scenes rendered through render()/Batch/Camera into sentinel-filled Framebuf/colour-only targets; every pixel not within 0.02 px of an edge/plane crossing/possible fan edge or a 0.1 % depth tie is asserted (attribute within 0.5 % of range, 1/w within 0.2 %, outside pixels bit-identical).",
-         "Trusted: f64 reference in harness/src/rs.rs; scalar attributes smuggled through the colour word; apex nudge D-d; colour varyings not asserted (D-e).",
+         "Trusted: f64 reference in harness/src/rs.rs (clip slack 1e-6*scale, clip-vertex uncertainty eps*scale/w_min added to the band); scalar attributes smuggled through the colour word; D-d relative to the smallest vertex magnitude; colour varyings not asserted (D-e). Mixed-magnitude triangles and 600..1400 px long buffers included. Twin builds: libm, mm.",
          "DESIGN.md §4 C01"),
  "C02": ("proptest view-space triangle soups through the library's own projection/viewport matrices x all Context flags, catch_unwind + sentinel comparison outside the viewport + NaN scan of the depth buffer",
          "Generated-input search over 120k (5M) scenes in the property's numeric domain with adversarial coordinate classes (exactly on near/far/side planes, behind the eye, coincident, sub-pixel, huge); any panic, any write outside the viewport rectangle or target window, any NaN depth is a violation.",
@@ -15,7 +15,7 @@ CHECKS = {
          "DESIGN.md §4 C02"),
  "C03": ("exhaustive 3^9x4^3 coordinate grid + proptest clip-space triangles and batches, f64 oracle in the input triangle's barycentric chart (containment, attribute = linear field, winding, point membership, batch independence)",
          "Generated-input search: 1.26M-triangle exhaustive grid plus 220k (11M) generated triangles/batches; each output vertex, output triangle and ~40 membership points per input are decided against the f64 chart oracle; all-inside returned bit-for-bit, all-outside-one-plane empty, clip(batch) == concatenation bit-for-bit.",
-         "Trusted: f64 chart geometry in c03.rs; chart clauses skipped for inputs degenerate in R^4 (counted).",
+         "Trusted: f64 chart geometry in c03.rs (tolerances 5-10x the measured error); chart clauses skipped for inputs degenerate in R^4 (counted). Also: clip(2^k T) = 2^k clip(T) exactly, clip(clip(T)) satisfies the oracle for T, coincident batch items with different attributes, vertices of very different magnitudes. Twin builds: libm, mm.",
          "DESIGN.md §4 C03"),
  "C04": ("exhaustive half/quarter-pixel lattice enumeration against an exact integer edge-function oracle + proptest class-mixture triangles and meshes against f64 signed edge distances",
          "Generated-input search: every ordered vertex triple of the half-pixel lattice on [0,4]^2 (thorough: [0,6]^2 and the quarter-pixel lattice on [0,3]^2) is decided exactly; 150k (6M) generated triangles and 20k (1M) shared-edge meshes are decided against the f64 oracle with the property's 0.001 px band. Establishes the property on everything generated, never absence of violations elsewhere.",
@@ -23,15 +23,15 @@ CHECKS = {
          "DESIGN.md §4 C04"),
  "C05": ("proptest class-mixture triangles x depths x attribute types, every fragment compared with the f64 plane / perspective-division oracle",
          "Generated-input search over 120k (5M) triangles with per-vertex reciprocal depths and seven attribute types; every fragment's position, depth and attribute is compared with the f64 plane oracle, NaN/inf forbidden for area > 1e-6 px^2.",
-         "Trusted: the f64 oracle; domain decisions D-c (tolerance scaling for slivers), D-e (colour varyings affine by design), rounding floor for constant fields.",
+         "Trusted: the f64 oracle; domain decisions D-c (tolerance scaling for slivers), D-e (colour varyings affine by design), rounding floor for constant fields. Sub-checks exact-slivers (1..5 ulps across, exact geometry, full 0.5 % bound) and scan-iterator (skip/step_by/nth/last agree with next). Twin builds: libm, mm.",
          "DESIGN.md §4 C05"),
  "C06": ("metamorphic/model-based: one scene, 10-14 generated histories (permutation x partition into calls x depth_sort x target x vertex-array sharing) vs the per-pixel arg-max over solo renders, bit-for-bit; depth-disjoint layers: z-buffer vs painter",
          "Generated-input search over 6k (200k) scenes x ~12 histories and 10k (300k) layered scenes. The reference model uses the rasteriser but none of the ordering/depth-test logic; exact ties between different triangles are excluded as the property says.",
-         "Trusted: solo renders as fragment source (rasteriser correctness is C04/C05's job); ids decoded by rounding in the harness shader.",
+         "Trusted: solo renders as fragment source (rasteriser correctness is C04/C05's job); ids decoded by rounding in the harness shader. Layers include camera-facing ones 4e-6..1e-2 apart (relative) at depths up to far/2 with far/near up to 1e5; discarding shaders; scenes out to near = 1e4. Twin builds: libm, mm.",
          "DESIGN.md §4 C06"),
  "C07": ("model-based: per-triangle fragment streams recorded from solo renders are replayed by an interpreter of the configuration (cull mode, depth predicate, write masks, discard, 1..3 calls) and compared bit-for-bit with the real buffers and exactly with ctx.stats; closed solids anchor front/back",
          "Generated-input search over 60k (2M) scene x configuration x call-split cases and 1.5k (60k) rotated solids. Front/back is decided in f64 from view-space geometry, never from the code under test.",
-         "Trusted: the configuration interpreter in c07.rs; recorded fragment streams; scenes with numerically ambiguous winding excluded when culling is on (counted).",
+         "Trusted: the configuration interpreter in c07.rs; recorded fragment streams; scenes with numerically ambiguous winding excluded when culling is on (counted). Sub-checks cull-large-screen (screens to 16384^2, sub-pixel triangles) and index-lists (vertex lists of 0..5 entries, index-reusing faces, repeated calls; appending unused vertices changes verts.i only). Twin builds: libm, mm.",
          "DESIGN.md §4 C07"),
  "C08": ("proptest probes vs an f64 pinhole model from the documentation: volume membership near every face, near/far depth bounds, depth monotonicity, viewport matrix, camera rendering of sub-pixel and frustum-covering triangles under all viewport rectangle classes, first-person rigidity/look-at/translate",
          "Generated-input search over 290k (18M) matrix probes, 16k (400k) camera renders and 60k (3M) first-person cases; conditioning-aware tolerances with the measured maxima recorded.",
@@ -71,7 +71,7 @@ CHECKS = {
          "DESIGN.md §4 C16"),
  "C17": ("proptest Bezier/spline evaluation vs the f64 Bernstein form for six control-point types, exhaustive join lattice (type x segments x join x ulp offset), and approximate() validated by reconstructing the recursion tree from a recording halt closure with an independent bisection interpreter",
          "Generated-input search: 619k (38M) cases; exact end values, bounding box, tangent = derivative, spline = segment cubic and continuity at joins +-3 ulp, approximate: strictly increasing dyadic parameters, every piece met the criterion or sits at the depth bound, terminates.",
-         "Trusted: f64 Bernstein reference and the bisection interpreter in c17.rs; >= 10x measured margins. Sub-check ends-extreme: exact-end clauses for control points up to f32::MAX / +-inf. Twin builds: libm, mm.",
+         "Trusted: f64 Bernstein reference and the bisection interpreter in c17.rs; 5-10x measured margins. Sub-checks ends-extreme (exact-end clauses for control points up to f32::MAX / +-inf) and start-relative (curves from the origin at t = 1e-30..1e-2, 4e-6 relative to the value); the depth bound found is asserted to be 10 + floor(log2(len)). Twin builds: libm, mm.",
          "DESIGN.md §4 C17"),
  "C18": ("proptest + lattices of angles/intervals/vectors vs f64 reference: unit conversions, wrap range and congruence, operators bit-equal to f32 on radians, polar/spherical round trips, sin_cos",
          "Generated-input search over 2.5M (96M) cases with >= 10x measured margins; wrap results must lie in [lo, hi] and be congruent modulo the interval length (tolerance scales with (|a|+|lo|+|hi|)/width).",
@@ -79,11 +79,11 @@ CHECKS = {
          "DESIGN.md §4 C18"),
  "C19": ("exact GF(2) order certificate of the step matrix read off next_bits (T^(2^64-1)=I, T^((2^64-1)/p)!=I for all 7 prime factors) + linearity on generated pairs + independent inverse step; ALL 2^23 mantissas x 96 (2048) float ranges enumerated via states constructed with the inverse step; proptest for i32 ranges, shapes, composite distributions",
          "Generated-input search and exhaustive enumeration: 9.4e8 (1.8e10) evaluations; period claim decided algebraically on observations of the real step function; distributions in range for every mantissa of every listed range.",
-         "Trusted: bit-matrix arithmetic and inverse step in c19.rs; linearity is sampled (a failure switches to a counterexample search, never alarms by itself). Edge probabilities / fixed ranges also on ~600 output words structured in all 64 bits. Twin build: libm.",
+         "Trusted: bit-matrix arithmetic and inverse step in c19.rs; linearity is sampled (a failure switches to a counterexample search, never alarms by itself). Edge probabilities / fixed ranges also on ~600 output words structured in all 64 bits; rejection samplers on constructed states with up to 23 (ball: 25) candidates rejected in a row and raw draws next to the inscribed-box corners. Twin build: libm.",
          "DESIGN.md §4 C19"),
  "C20": ("one probe binary per feature configuration {none, libm, mm, std} (thorough: also without debug assertions): dense/exhaustive sweeps of every float helper against std f64 references with fixed per-backend bounds, plus per-configuration consequence checks (C04 half-pixel lattice with exact oracle, sampler addressing, wrap, normalize) and a cross-configuration coverage-hash comparison",
-         "Generated-input search: 1.6e8 (1.8e10: all 2^32 bit patterns for floor/abs in all four builds) evaluations; floor/abs exact for |x| < 2^31, rem_euclid in range and congruent, approximate functions within the committed bound table; sqrt/recip_sqrt over every 4099th (251st) positive bit pattern (subnormals included for libm/std), sin/cos/tan and Angle::sin_cos up to 1e30 (mm: 1e3).",
-         "Trusted: std f64 functions as reference; the bound table in harness/fpprobe/src/main.rs; atan2 compared modulo a turn. Open finding F19 (micromath powf) is listed in known_findings.json.",
+         "Generated-input search: 1.6e8 (1.8e10: all 2^32 bit patterns for floor/abs in all four builds) evaluations; floor/abs exact for |x| < 2^31, rem_euclid in range and congruent, approximate functions within the committed bound table; sqrt/recip_sqrt over every 4099th (251st) positive bit pattern (subnormals included for libm/std), sin/cos/tan and Angle::sin_cos up to 1e30 (mm: 1e3); asin/acos also on log-spaced arguments down to 1e-45; powf also with zero and negative bases; atan2 at every signed-zero pair.",
+         "Trusted: std f64 functions as reference; the bound table in harness/fpprobe/src/main.rs; atan2 compared modulo a turn. Open finding F19 (micromath powf accuracy) is listed in known_findings.json; F13, F20, F23, F24 (found by this check) are fixed.",
          "DESIGN.md §4 C20"),
 }
 
